@@ -6,7 +6,8 @@
 #include "confcommon.h"
 #include <fcntl.h>
 
-static void *ctx_handler(spif_charptr_t b, void *s) { (void) b; return s; }
+static int g_hcalls;
+static void *ctx_handler(spif_charptr_t b, void *s) { (void) b; g_hcalls++; return s; }
 static spif_charptr_t my_builtin(spif_charptr_t p) { (void) p; return (spif_charptr_t) STRDUP("B"); }
 
 /* ------------------------------------------------------------------ (1) hostile files */
@@ -53,7 +54,7 @@ static void parse_guarded_file(const char *path, const char *shape)
     names_once();
     spifconf_init_subsystem();
     spifconf_register_context((spif_charptr_t) "A", ctx_handler);
-    g_spawns = 0; g_errors = 0; g_open_files = g_opens = 0;
+    g_spawns = 0; g_errors = 0; g_open_files = g_opens = 0; g_hcalls = 0;
     g_env_on = 1; g_ledger_on = 1; g_allow_fork = 0; g_home = "/h";
     spif_charptr_t r = spifconf_parse((spif_charptr_t) path, NULL, NULL);
     g_env_on = 0; g_ledger_on = 0; g_allow_fork = 1;
@@ -61,6 +62,7 @@ static void parse_guarded_file(const char *path, const char *shape)
     if (g_spawns) FAIL("spifconf_parse", "spawn", shape, "a process was spawned although the text has no backquote, %%exec or %%preproc: %s", g_spawn_what);
     if (g_open_files) FAIL("spifconf_parse", "fd-leak", shape, "%d files opened by the parser were not closed", g_open_files);
     if (fstate_idx != 0) FAIL("spifconf_parse", "model:file-stack-not-restored", shape, "file stack index %d after parsing", fstate_idx);
+    mc_outcome((uint64_t) g_errors * 100003u + (uint64_t) g_hcalls * 101u + (uint64_t) g_opens * 7u + (uint64_t) ctx_state_idx);      /* what the parse did, as far as the harness sees it */
     spifconf_free_subsystem();
 }
 static void h_case(uint64_t idx, void *ctx)
@@ -191,9 +193,9 @@ static void t_case(uint64_t idx, void *ctx)
 }
 
 /* ------------------------------------------------------------------ (4) lifecycle */
-typedef struct { int init, nctx, nbi, kset, cycles, nullreg, scans; long base; int first_get_ok; } ls_t;
-enum { O_INIT, O_REG_CTX, O_REG_BI, O_PARSE, O_PUT, O_GET, O_FREE, O_REG_NULL, O_DIRSCAN, NLOPS };
-static const char *LN[NLOPS] = { "init", "register_context", "register_builtin", "parse(file with %include, blocks, $V)", "expand %put(k v)", "expand x%get(k)y", "free", "register_context(\"null\") again", "expand %dirscan(dir with one file)" };
+typedef struct { int init, nctx, nbi, kset, cycles, nullreg, scans, argvs; long base; int first_get_ok; } ls_t;
+enum { O_INIT, O_REG_CTX, O_REG_BI, O_PARSE, O_PUT, O_GET, O_FREE, O_REG_NULL, O_DIRSCAN, O_ARGV, NLOPS };
+static const char *LN[NLOPS] = { "init", "register_context", "register_builtin", "parse(file with %include, blocks, $V)", "expand %put(k v)", "expand x%get(k)y", "free", "register_context(\"null\") again", "expand %dirscan(dir with one file)", "parse_line(NULL, ...) x 6 (lines given on the command line)" };
 static char g_lfile[300], g_linc[300], g_ldir[300];
 static void l_name(int i, char *b, size_t n) { snprintf(b, n, "%s", LN[i]); }
 static void *l_fresh(void)
@@ -209,14 +211,20 @@ static void *l_fresh(void)
     s->base = mc_live_bytes();
     return s;
 }
-static int l_enabled(void *vs, int op) { ls_t *s = vs; if (op == O_INIT) return !s->init && s->cycles < 2; if (!s->init) return 0; if (op == O_REG_CTX) return s->nctx < 2; if (op == O_REG_BI) return s->nbi < 2; if (op == O_REG_NULL) return !s->nullreg; if (op == O_DIRSCAN) return s->scans < 1; return 1; }
+static int l_enabled(void *vs, int op) { ls_t *s = vs; if (op == O_INIT) return !s->init && s->cycles < 2; if (!s->init) return 0; if (op == O_REG_CTX) return s->nctx < 2; if (op == O_REG_BI) return s->nbi < 2; if (op == O_REG_NULL) return !s->nullreg; if (op == O_DIRSCAN) return s->scans < 1; if (op == O_ARGV) return s->argvs < 1; return 1; }
 static void l_apply(void *vs, int op)
 {
     ls_t *s = vs; const char *shape = LN[op]; char *b;
     mc_set_shape(shape);
     g_env_on = 1; g_allow_fork = 0; g_home = "/h"; g_spawns = 0;
     switch (op) {
-    case O_INIT: spifconf_init_subsystem(); s->init = 1; s->nctx = s->nbi = 0; s->kset = 0; s->nullreg = 0; s->scans = 0; break;
+    case O_INIT: spifconf_init_subsystem(); s->init = 1; s->nctx = s->nbi = 0; s->kset = 0; s->nullreg = 0; s->scans = 0; s->argvs = 0; break;
+    case O_ARGV: {          /* the fp == NULL mode of spifconf_parse_line: "context text..." given outside any file */
+        static const char *AL[6] = { "A attr value $V", "", "# c", "zz text", "A", "B x" };
+        for (int i = 0; i < 6; i++) { b = malloc(CONFIG_BUFF); strcpy(b, AL[i]); spifconf_parse_line(NULL, (spif_charptr_t) b); free(b);
+            if (fstate_idx != 0) { FAIL("spifconf_parse_line", "model:file-stack-not-restored", shape, "file stack index is %d after parse_line(NULL, \"%s\")", fstate_idx, AL[i]); fstate_idx = 0; break; }
+            if (ctx_state_idx != 0) { FAIL("spifconf_parse_line", "model:context-stack-depth", shape, "context stack index is %d after parse_line(NULL, \"%s\")", ctx_state_idx, AL[i]); ctx_state_idx = 0; break; } }
+        s->argvs++; break; }
     case O_REG_NULL: spifconf_register_context((spif_charptr_t) "null", ctx_handler); s->nullreg = 1; break;        /* replaces the built-in null context, whatever else is registered */
     case O_DIRSCAN: b = malloc(CONFIG_BUFF); snprintf(b, CONFIG_BUFF, "x%%dirscan(%s)y", g_ldir); spifconf_shell_expand((spif_charptr_t) b);
         if (strcmp(b, "xf y")) FAIL("spifconf_shell_expand", "model:value", shape, "x%%dirscan(dir)y gave \"%s\"", b);
@@ -235,7 +243,7 @@ static void l_apply(void *vs, int op)
     g_env_on = 0; g_allow_fork = 1;
     if (g_spawns) FAIL("spifconf", "spawn", shape, "a process was spawned: %s", g_spawn_what);
 }
-static void l_canon(void *vs, char *b, size_t n) { ls_t *s = vs; snprintf(b, n, "init=%d ctx=%d bi=%d k=%d null=%d scans=%d cycles=%d held=%ld", s->init, s->nctx, s->nbi, s->kset, s->nullreg, s->scans, s->cycles, s->init ? 0L : mc_live_bytes() - s->base); }
+static void l_canon(void *vs, char *b, size_t n) { ls_t *s = vs; snprintf(b, n, "init=%d ctx=%d bi=%d k=%d null=%d scans=%d argv=%d cycles=%d held=%ld", s->init, s->nctx, s->nbi, s->kset, s->nullreg, s->scans, s->argvs, s->cycles, s->init ? 0L : mc_live_bytes() - s->base); }
 static void l_teardown(void *vs)
 {
     ls_t *s = vs;
@@ -294,7 +302,7 @@ int main(int argc, char **argv)
     mc_init("C11", argc, argv);
     int N = (int) mc_arg_int("N", mc_thorough() ? 3 : 2);
     mc_info("alphabet", "(1) files of <= %d lines from %d hostile line kinds x {normal, no final newline, magic without '>', 300-byte magic} + 6 special files; (2) find_file: 10 file lengths x 11 dir choices x 31 pathlist shapes (0..70000 chars); "
-            "(3) spawn-trap positive controls, temp_file: 4 umasks x TMPDIR/TMP set/unset x 4 template lengths x 50 files; (4) lifecycle E1 over {init, register_context, register_context(null) again, register_builtin, parse, %%put, %%get, %%dirscan, free}, 2 cycles; counter sweep 0..300", N, NHOST);
+            "(3) spawn-trap positive controls, temp_file: 4 umasks x TMPDIR/TMP set/unset x 4 template lengths x 50 files; (4) lifecycle E1 over {init, register_context, register_context(null) again, register_builtin, parse, %%put, %%get, %%dirscan, parse_line(NULL,..), free}, 2 cycles; counter sweep 0..300", N, NHOST);
     mc_guarded("controls", "spawn-trap positive controls: backquote value and %exec(true) must reach the trap; single-quoted backquote must not", spawn_controls, NULL);
     mc_guarded("find_file", "find_file positive control: an existing file is found via dir and via the search path", p_found, NULL);
     mc_e2_level("special_files", 1, 6, s_case, s_desc, NULL);
